@@ -21,7 +21,7 @@ theorems as the hypothesis that the decoded key is Equal to a stored one.
 **Go maps.** `originalKeys map[HashMapKey][]T` is an association list with distinct hashes whose
 order stands for the iteration order; the response maps `map[K]V` are association lists under
 Go's own key equality `goEq` on `K` (pointer identity for record keys, `==` for primitives); an
-assignment `m[k] = v` to a present key replaces the value and overwrites the key (see `mapSet`). -/
+entry whose key is already present is refused, so every assignment appends. -/
 namespace Restli.KeySet
 open Restli
 
@@ -101,8 +101,9 @@ def GenericSet.ids {α : Type} (encode : α → Option Bytes) (s : GenericSet α
 /-! ## `primitiveKeySet` — `map[T]struct{}` under Go's `==` on `T` -/
 
 open Restli.Equals in
-/-- the key list is the Go map's key set in iteration order; Go map lookup compares with `==`
-(a NaN is never found, so every NaN inserted is a new entry) -/
+/-- `originalKeys map[T]T` (every key mapped to itself): the list is the Go map's entries in
+iteration order; Go map lookup compares with `==` (a NaN is never found, so every NaN inserted is
+a new entry) -/
 structure PrimSet where
   keys : List (Key Prim)
 deriving Repr, DecidableEq
@@ -112,9 +113,10 @@ def PrimSet.addKey (s : PrimSet) (t : Key Prim) : Option PrimSet :=
   if s.keys.any (fun k => Prim.eq t.val k.val) then none else some ⟨s.keys ++ [t]⟩
 
 open Restli.Equals in
-/-- `LocateOriginalKey(key)` returns **its argument**, not the stored key -/
+/-- `LocateOriginalKey(key)`: `originalKey, found = s.originalKeys[key]` — the value stored under the
+`==` key, i.e. the key the caller added (`originalKeys` maps every key to itself) -/
 def PrimSet.locate (s : PrimSet) (key : Key Prim) : Option (Key Prim) :=
-  if s.keys.any (fun k => Prim.eq key.val k.val) then some key else none
+  s.keys.find? (fun k => Prim.eq key.val k.val)
 
 def PrimSet.addAll (ts : List (Key Equals.Prim)) : Nat ⊕ PrimSet :=
   addAllFrom PrimSet.addKey 0 ⟨[]⟩ ts
@@ -132,6 +134,10 @@ inductive ErrClass where
   | missingResults
   /-- a member that is none of the three fields, where that is an error (v2: `NoSuchFieldErr`) -/
   | noSuchField
+  /-- "Key … returned twice in …": the located key already has an entry in this map -/
+  | repeatedKey
+  /-- "Field … returned twice": results, statuses or errors appears a second time -/
+  | repeatedField
 deriving Repr, DecidableEq
 
 /-- `LocateOriginalKeyFromReader` with the codec abstracted as `decode` -/
@@ -144,16 +150,10 @@ def locateFromReader {α : Type} (decode : Bytes → Option (Key α))
     | some o => .ok o
     | none => .error .unknownKey
 
-/-- `m[k] = v` on a Go map. When an equal key is present the value is replaced **and the stored key
-is overwritten by the new one** (the runtime's `NeedKeyUpdate`, true for float and string keys:
-observable exactly for `+0/−0`; for pointer keys old and new key are the same pointer anyway). -/
-def mapSet {α V : Type} (goEq : Key α → Key α → Bool) (k : Key α) (v : V) :
-    List (Key α × V) → List (Key α × V)
-  | [] => [(k, v)]
-  | (k', v') :: rest => if goEq k' k then (k, v) :: rest else (k', v') :: mapSet goEq k v rest
-
 /-- the `reader.ReadMap(func(valueReader, rawKey) …)` loop of one of the three fields; an entry is
-`(rawKey, value)` with `none` = the value does not decode -/
+`(rawKey, value)` with `none` = the value does not decode. Per entry: locate the key, refuse it
+when the map already has an entry under an equal key (Go's key equality `goEq` on `K`), decode the
+value, assign — to a key that is not present, so the assignment appends. -/
 def fillField {α V : Type} (locator : Bytes → Except ErrClass (Key α))
     (goEq : Key α → Key α → Bool) :
     List (Key α × V) → List (Bytes × Option V) → Except ErrClass (List (Key α × V))
@@ -162,9 +162,11 @@ def fillField {α V : Type} (locator : Bytes → Except ErrClass (Key α))
     match locator raw with
     | .error e => .error e
     | .ok o =>
-      match v with
-      | none => .error .badValue
-      | some v => fillField locator goEq (mapSet goEq o v m) rest
+      if m.any (fun kv => goEq kv.1 o) then .error .repeatedKey
+      else
+        match v with
+        | none => .error .badValue
+        | some v => fillField locator goEq (m ++ [(o, v)]) rest
 
 /-- which of the response's fields a JSON member is -/
 inductive FieldTag where
@@ -204,34 +206,37 @@ structure BatchResponse (α V : Type) where
   errors : Option (List (Key α × V)) := none
 deriving Repr, DecidableEq
 
-/-- the `ReadRecord` loop over the document's members in document order. A repeated field
-re-runs `b.X = make(map…)`, i.e. starts again from the empty map. -/
+/-- the `ReadRecord` loop over the document's members in document order; `seen` are the fields
+already met (`seenResults/seenStatuses/seenErrors`): a second occurrence is an error. -/
 def unmarshalFields {α V : Type} (strict : Bool) (locator : Bytes → Except ErrClass (Key α))
-    (goEq : Key α → Key α → Bool) :
-    BatchResponse α V → List (FieldTag × List (Bytes × Option V)) → Except ErrClass (BatchResponse α V)
-  | b, [] => .ok b
-  | b, (tag, entries) :: rest =>
+    (goEq : Key α → Key α → Bool) : List FieldTag → BatchResponse α V →
+    List (FieldTag × List (Bytes × Option V)) → Except ErrClass (BatchResponse α V)
+  | _, b, [] => .ok b
+  | seen, b, (tag, entries) :: rest =>
     match tag with
-    | .other => if strict then .error .noSuchField else unmarshalFields strict locator goEq b rest
+    | .other => if strict then .error .noSuchField else unmarshalFields strict locator goEq seen b rest
     | .results =>
+      if seen.contains .results then .error .repeatedField else
       match fillField locator goEq [] entries with
       | .error e => .error e
-      | .ok m => unmarshalFields strict locator goEq { b with results := some m } rest
+      | .ok m => unmarshalFields strict locator goEq (.results :: seen) { b with results := some m } rest
     | .statuses =>
+      if seen.contains .statuses then .error .repeatedField else
       match fillField locator goEq [] entries with
       | .error e => .error e
-      | .ok m => unmarshalFields strict locator goEq { b with statuses := some m } rest
+      | .ok m => unmarshalFields strict locator goEq (.statuses :: seen) { b with statuses := some m } rest
     | .errors =>
+      if seen.contains .errors then .error .repeatedField else
       match fillField locator goEq [] entries with
       | .error e => .error e
-      | .ok m => unmarshalFields strict locator goEq { b with errors := some m } rest
+      | .ok m => unmarshalFields strict locator goEq (.errors :: seen) { b with errors := some m } rest
 
 /-- `UnmarshalWithKeyLocator(reader, keys)` with `keys != nil`: fields in document order, then
 `ReadRecord`'s required-field check (`results`). -/
 def unmarshalWithKeyLocator {α V : Type} (strict : Bool) (locator : Bytes → Except ErrClass (Key α))
     (goEq : Key α → Key α → Bool) (doc : List (FieldTag × List (Bytes × Option V))) :
     Except ErrClass (BatchResponse α V) :=
-  match unmarshalFields strict locator goEq {} doc with
+  match unmarshalFields strict locator goEq [] {} doc with
   | .error e => .error e
   | .ok b => if doc.any (fun f => f.1 == .results) then .ok b else .error .missingResults
 
